@@ -36,6 +36,17 @@ impl Process for Rec {
     }
 }
 
+/// A process whose handler panics on the atom `boom`: its task dies without the clean-up of an orderly exit.
+pub struct Bomb;
+impl Process for Bomb {
+    async fn handle_message(&mut self, msg: Message) -> edp_node::Result<()> {
+        if let Message::Regular { body: OwnedTerm::Atom(a), .. } = &msg {
+            if a.as_str() == "boom" { panic!("handler of the test process panics on purpose"); }
+        }
+        Ok(())
+    }
+}
+
 pub fn peer_pid(id: u32) -> RefVal {
     RefVal::Pid { node: crate::world::PEER_NAME.into(), id, serial: 0, creation: crate::world::PEER_CREATION }
 }
